@@ -272,3 +272,75 @@ Definition summaries_cover (t : tree) : Prop :=
   summary_covers (t_root t) /\ forall s, In s (t_subs t) -> summary_covers (s_intent s).
 
 Definition accepted (t : tree) : Prop := exists r p d c, validate t = Accept r p d c.
+
+(* ================================================================================================
+   Extension: validate_intents_and_structure with intents whose own validation can fail.
+   `IntentStructure::validate_intent(validator, &mut aggregation)` of each intent is summarised by what it
+   does to the aggregation and what it returns (the harness stub does exactly this):
+     aggregation.record_reference_count(v_refs, config)?     -- Err(TooManyReferences{total: v_refs, limit})
+                                                                when v_refs > max_references_per_intent,
+                                                                else total = total.saturating_add(v_refs)
+     if let Some(code) = v_fail { return Err(error(code)) }  -- any other IntentValidationError
+     Ok(yield summary)
+   The order in the code: relationships (STEP 1-4) first, then the root intent, then the non-root
+   subintents in list order (error location = enumeration index + hash), then
+   AcrossIntentAggregation::finalize (total > max_total_references), then the yield loop. *)
+Definition USIZE_MAX : N := 18446744073709551615.
+Definition sat_add (a b : N) : N := N.min (a + b) USIZE_MAX.      (* usize::saturating_add *)
+
+Record iverdict := { v_refs : N; v_fail : option N }.
+Record full := {
+  f_tree : tree;
+  f_root_v : iverdict;
+  f_sub_vs : list iverdict;              (* one per non-root subintent, same order *)
+  f_max_references_per_intent : N;
+  f_max_total_references : N
+}.
+Inductive ierr := IntentFailed (code : N) | TooManyReferences (total limit : N).
+Inductive floc := FRoot | FNonRoot (i : nat) (h : N) | FAcross.
+Inductive foutcome :=
+| FStructure (o : outcome)            (* verdict of the structure / yield checks (Accept, Reject, Panic, OutOfFuel) *)
+| FIntent (l : floc) (e : ierr).      (* TransactionValidationError::IntentValidationError(location, error) *)
+
+Definition run_intent (per total : N) (v : iverdict) : ierr + N :=
+  if per <? v_refs v then inl (TooManyReferences (v_refs v) per)
+  else match v_fail v with
+       | Some c => inl (IntentFailed c)
+       | None => inr (sat_add total (v_refs v))
+       end.
+Fixpoint run_subs (per : N) (i : nat) (hs : list N) (vs : list iverdict) (total : N) : (floc * ierr) + N :=
+  match hs, vs with
+  | h :: hr, v :: vr =>
+    match run_intent per total v with
+    | inl e => inl (FNonRoot i h, e)
+    | inr t' => run_subs per (S i) hr vr t'
+    end
+  | _, _ => inr total
+  end.
+Definition validate_full_with (fuel : nat) (f : full) : foutcome :=
+  let t := f_tree f in
+  match relationships_with fuel t with
+  | inl e => FStructure e
+  | inr (rootch, ps, ds, chs) =>
+    match run_intent (f_max_references_per_intent f) 0 (f_root_v f) with
+    | inl e => FIntent FRoot e
+    | inr t1 =>
+      match run_subs (f_max_references_per_intent f) O (hashes_of t) (f_sub_vs f) t1 with
+      | inl (l, e) => FIntent l e
+      | inr total =>
+        if f_max_total_references f <? total
+        then FIntent FAcross (TooManyReferences total (f_max_total_references f))
+        else match yield_check (yield_summaries t) (hashes_of t) ps O with
+             | Some e => FStructure e
+             | None => FStructure (Accept rootch ps ds chs)
+             end
+      end
+    end
+  end.
+Definition validate_full (f : full) : foutcome := validate_full_with (length (hashes_of (f_tree f))) f.
+
+(* specification side *)
+Definition intent_ok (per : N) (v : iverdict) : Prop := v_refs v <= per /\ v_fail v = None.
+Definition total_references (f : full) : N :=
+  fold_left sat_add (map v_refs (f_root_v f :: f_sub_vs f)) 0.
+Definition full_accepted (f : full) : Prop := exists r p d c, validate_full f = FStructure (Accept r p d c).
